@@ -129,6 +129,23 @@ func main() {
 				}
 				return true
 			})
+			// the block handed to newBlockFn / reassignLIDs (rewritten in place) must be the generator's own buffer
+			var reArgs, bufAssigns []string
+			ast.Inspect(fd.Body, func(n ast.Node) bool {
+				switch x := n.(type) {
+				case *ast.CallExpr:
+					if f.Render(x.Fun) == "reassignLIDs" && len(x.Args) == 2 {
+						reArgs = append(reArgs, f.Render(x.Args[0]))
+					}
+				case *ast.AssignStmt:
+					if len(x.Lhs) == 1 && f.Render(x.Lhs[0]) == "blockLIDs" {
+						bufAssigns = append(bufAssigns, f.Render(x.Rhs[0]))
+					}
+				}
+				return true
+			})
+			e.Strs("lidGenReassignArgs", reArgs, "getLIDsBlockGenerator: first argument of every reassignLIDs call (rewritten in place)")
+			e.Strs("lidGenBufferAssigns", bufAssigns, "getLIDsBlockGenerator: every value assigned to blockLIDs")
 			e.Strs("lidGenFlush", flush, "getLIDsBlockGenerator: conditions under which a block is pushed, with the isLastLID argument")
 			e.Strs("lidGenRight", rights, "getLIDsBlockGenerator: right := ...")
 		}
